@@ -1,5 +1,6 @@
 import Aurora.Lemmas.Localstore
 import Aurora.Lemmas.LocalstoreCS
+import Aurora.Lemmas.LocalstoreBatch
 /-!
 C11 — Local store returns exactly what was stored (garbage collection out of reach: no `gcSelect`/
 `gcEvict` in the histories considered; the capacity premise of DESIGN §6 is therefore not needed by
@@ -207,5 +208,51 @@ example :
     specFrom (fun _ => none) (traceH po0c c0 ops) 1 = some ([7], 1) ∧
     specFrom (fun _ => none) (traceH po0c c0 ops) 2 = none ∧
     specFrom (fun _ => none) (traceH po0c c0 ops) 3 = some ([9], 0) := by decide
+
+/-! ## batched = one at a time, on the chunk-set abstraction, outside the known-finding shapes -/
+
+/-- the guard of `C11_batch_eq_sequential_abstract_partial`: the batched call succeeds (excludes
+`batch-aborts-where-sequential-stores`), and a `ModePutUploadPin` batch lists every address once (excludes
+`batch-dup-pins-once`; a duplicate in a `ModePutRequestPin` batch is harmless — the second single call finds
+the chunk present and does not pin it again). -/
+def C11_batchGuard (po : Addr → Nat) (s : State) (m : PutMode) (r : Option Addr) (chs : List (Addr × Bytes)) : Bool :=
+  batchGuard po s m r chs
+
+/-- `batch_eq_sequential_abstract` (partial — guard `C11_batchGuard`): in every state whose pin entries are
+positive and belong to stored chunks (`PinInv`; every state reachable with garbage collection out of reach,
+`C11_pinInv_histories`), for every mode, root context and chunk list (duplicates included), the batched `Put`
+and the same chunks put one call at a time reach states equal on `Addr ↦ (bytes, pin count)`.
+Missing for the full clause: the two excluded shapes, refuted by
+`C11_batch_eq_sequential_abstract_counterexample` and `C11_batch_dup_pin_counterexample`. -/
+theorem C11_batch_eq_sequential_abstract_partial (po : Addr → Nat) (s : State) (m : PutMode) (r : Option Addr)
+    (chs : List (Addr × Bytes)) (hI : PinInv s.db) (hg : C11_batchGuard po s m r chs = true) :
+    ∀ a, absCS (step po s (.put m r chs)).db a =
+         absCS (chs.foldl (fun t c => step po t (.put m r [c])) s).db a := by
+  intro a
+  have := batch_eq_seq po s m r chs hI hg
+  rw [C11_absCS_eq_csOf, C11_absCS_eq_csOf, this]
+  rfl
+
+/-- the state premise of the previous theorem holds after every history with garbage collection out of reach -/
+theorem C11_pinInv_histories (po : Addr → Nat) (cap : Nat) (ops : List Op)
+    (hq : gcQuietH po (init cap) ops = true) : PinInv (runH po (init cap) ops).db :=
+  (hist_refines po ops (init cap) rfl (pinInv_init cap) hq).1
+
+/-- the same in the form of `C11_batch_eq_sequential_abstract_full` (`absEq` over the witness universe) -/
+theorem C11_batch_eq_sequential_absEq_partial (s : State) (m : PutMode) (r : Option Addr)
+    (chs : List (Addr × Bytes)) (hI : PinInv s.db) (hg : C11_batchGuard po0c s m r chs = true) :
+    absEq (step po0c s (.put m r chs)) (chs.foldl (fun t c => step po0c t (.put m r [c])) s) = true := by
+  simp only [absEq, List.all_eq_true, beq_iff_eq]
+  intro a _
+  exact C11_batch_eq_sequential_abstract_partial po0c s m r chs hI hg a
+
+/-- the guard is false on both counterexample shapes … -/
+example : C11_batchGuard po0c c0 .request (some 1) [(1, []), (2, [])] = false ∧
+    C11_batchGuard po0c c0 .uploadPin none [(1, []), (1, [])] = false := by decide
+/-- … and true on batches with a root context, with duplicates, and in the pinning modes (non-vacuity) -/
+example : C11_batchGuard po0c (step po0c c0 (.put .request (some 1) [(1, [])])) .request (some 1) [(2, []), (3, []), (2, [5])] = true ∧
+    C11_batchGuard po0c c0 .requestPin none [(1, []), (1, [])] = true ∧
+    C11_batchGuard po0c c0 .uploadPin (some 4) [(1, []), (2, [])] = true ∧
+    PinInv c0.db := ⟨by decide, by decide, by decide, pinInv_init _⟩
 
 end Aurora.Localstore
